@@ -15,7 +15,8 @@ Definition covered_by (a b : list sp) : bool := forallb (fun s => sp_eqb s Env |
 Definition TIE_OPS : list string :=
   ["mload"; "sload"; "tload"; "iload"; "mstore"; "sstore"; "tstore"; "istore"; "mcopy"; "calldatacopy"; "codecopy";
    "dloadbytes"; "returndatacopy"; "extcodecopy"; "dload"; "sha3"; "log"; "call"; "delegatecall"; "staticcall";
-   "create"; "create2"; "balance"; "selfbalance"; "extcodesize"; "extcodehash"; "returndatasize"; "revert"].
+   "create"; "create2"; "balance"; "selfbalance"; "extcodesize"; "extcodehash"; "returndatasize"; "revert";
+   "getfmp"; "setfmp"; "dalloca"; "bump"].
 
 Definition tie_bad : list string :=
   filter (fun op => negb (covered_by (model_reads op) (gen_reads op ++ gen_writes op)
